@@ -403,11 +403,21 @@ def corpus_cases():
     ]
 
 
-def exhaustive_cases(length, cfgs):
+PREFIXES = [
+    [],
+    [("rec", True), ("rx", "connack", 0, 0, 0, False)],
+    [("rec", True), ("rx", "connack", 0, 0, 0, False), ("pub", 2), ("pub", 1), ("pub", 1)],
+    [("pub", 2), ("pub", 1), ("rec", True), ("rx", "connack", 0, 0, 0, False), ("rx", "pubrec", 1, 0, 0, False)],
+    [("rec", True), ("rx", "connack", 0, 0, 0, False), ("pub", 2), ("rx", "pubrec", 1, 0, 0, False), ("lost",), ("rec", False)],
+]
+
+
+def exhaustive_cases(length, cfgs, prefixes):
     alpha = small_alphabet()
     for cfg in cfgs:
-        for seq in itertools.product(alpha, repeat=length):
-            yield cfg, list(seq)
+        for pre in prefixes:
+            for seq in itertools.product(alpha, repeat=length):
+                yield cfg, pre + list(seq)
 
 
 def run_cases(cases, out, prop_keys, label):
@@ -436,6 +446,18 @@ def run_cases(cases, out, prop_keys, label):
             out.stat("op:" + k)
         out.stat("len:%d" % (len(ops) // 5 * 5))
         out.stat("conforming" if conforming else "nonconforming")
+        for _, stp in ir:
+            sts = [m[2] for m in stp["out"]]
+            if 4 in sts:
+                out.stat("state:resend_pubrel")
+            if 6 in sts:
+                out.stat("state:queued")
+            if 5 in sts:
+                out.stat("state:wait_pubcomp")
+            if stp["inm"]:
+                out.stat("state:inbound_qos2_pending")
+            if cfg["max"] and stp["inflight"] == cfg["max"]:
+                out.stat("state:window_full")
         trace_key = tuple(tuple(tuple(e) for e in evs) for evs, _ in ir)
         nontriv = any(e[0] == 0 and e[2] in (1, 2) for evs, _ in ir for e in evs)
         out.seen((tuple(sorted(cfg.items())), trace_key), nontrivial=nontriv)
@@ -474,15 +496,18 @@ def standard_run(ctx, out, prop_keys, label, conforming=True):
     if out.samples == []:
         r = run_impl(corpus[0][0], corpus[0][1])
         out.sample({"cfg": corpus[0][0], "ops": corpus[0][1], "impl_events_per_op": [e for e, _ in r]})
-    # 2. exhaustive small scope
+    # 2. exhaustive small scope: every sequence of L operations after each of several prefixes that
+    #    set up interesting states (window full, message past PUBREC, failed reconnect pending)
     L = 3 if ctx.quick else 4
     cfgs = CFGS[:2] if ctx.quick else CFGS[:4]
-    ex = list(exhaustive_cases(L, cfgs))
+    prefixes = PREFIXES[:3] if ctx.quick else PREFIXES
+    ex = list(exhaustive_cases(L, cfgs, prefixes))
     if ctx.scale > 1:
         ex = []
     for i in range(0, len(ex), 4000):
         run_cases(ex[i:i + 4000], out, prop_keys, label)
     out.stats["exhaustive_len"] = L
+    out.stats["exhaustive_prefixes"] = len(prefixes)
     out.stats["exhaustive_cases"] = len(ex)
     # 3. seeded random, mostly conforming
     nrand = ctx.n(250, 4000)
